@@ -91,10 +91,12 @@ def build_app(tree):
             cc.enable_lenient_args_parsing()
         cfgs[i + 1] = cc
         if how == 0:
+            # ... one by one, or through the bulk adders (which add to what is there)
+            bulk = (zlib.crc32(key.encode()) // 13 + i) % 2 == 1
             if nd["parent"] == 0:
-                c.add_command_config(cc)
+                c.add_command_configs([cc]) if bulk else c.add_command_config(cc)
             else:
-                parent.add_sub_command_config(cc)
+                parent.add_sub_command_configs([cc]) if bulk else parent.add_sub_command_config(cc)
     app = ConsoleApplication(c)
     cmds = {}
 
